@@ -65,6 +65,10 @@ type c18Scenario struct {
 	Cap     int        `json:"cap"`
 	File    bool       `json:"file"`
 	Threads [][]string `json:"threads"`
+	// Base: absolute position the backlog starts from (the state after Base bytes were written long
+	// ago); every offset of the scenario is relative to it. Non-zero bases put the ring across the
+	// 2^32 boundary without writing 4 GiB first.
+	Base uint64 `json:"base,omitempty"`
 }
 
 type c18Run struct {
@@ -93,6 +97,17 @@ func c18New(sc c18Scenario) *c18Run {
 		run.bl = NewFileBacklog(sc.Cap, f)
 	} else {
 		run.bl = NewSize(sc.Cap)
+	}
+	if sc.Base != 0 {
+		switch st := run.bl.store.(type) {
+		case *memBuffer:
+			st.wpos = sc.Base
+		case *fileBuffer:
+			st.wpos = sc.Base
+		default:
+			panic("c18: unknown store type")
+		}
+		run.wpos, run.maxW = sc.Base, sc.Base
 	}
 	return run
 }
@@ -160,7 +175,7 @@ func (run *c18Run) do(thread int, op string) {
 		e.N, e.Err = n, c18ErrClass(err)
 	case 'A':
 		parts := strings.Split(op[1:], "@")
-		k, off := int(c18Atoi(parts[0])), c18Atoi(parts[1])
+		k, off := int(c18Atoi(parts[0])), run.sc.Base+c18Atoi(parts[1])
 		b := make([]byte, k)
 		n, err := run.bl.ReadAt(b, off)
 		e.N, e.Err, e.Data, e.Off = n, c18ErrClass(err), b[:n], off
@@ -191,7 +206,7 @@ func (run *c18Run) do(thread int, op string) {
 			e.Err = "noreader"
 			break
 		}
-		e.Off = c18Atoi(op[1:])
+		e.Off = run.sc.Base + c18Atoi(op[1:])
 		e.Bool = r.SeekTo(e.Off)
 	case 'V':
 		r := run.readers[thread]
@@ -488,8 +503,8 @@ func c18FaultScenarios(capn int) []c18Scenario {
 }
 
 // c18SeqWord: sequential words against the reference log (ops that would block are skipped).
-func c18SeqWord(capn int, file bool, word []string) string {
-	run := c18New(c18Scenario{Cap: capn, File: file})
+func c18SeqWord(capn int, file bool, base uint64, word []string) string {
+	run := c18New(c18Scenario{Cap: capn, File: file, Base: base})
 	run.peek = true
 	defer run.cleanup()
 	closed := false
@@ -498,7 +513,7 @@ func c18SeqWord(capn int, file bool, word []string) string {
 			// skip operations that would wait for data
 			if op[0] == 'A' {
 				parts := strings.Split(op[1:], "@")
-				if c18Atoi(parts[0]) > 0 && c18Atoi(parts[1]) == run.wpos {
+				if c18Atoi(parts[0]) > 0 && base+c18Atoi(parts[1]) == run.wpos {
 					return ""
 				}
 			}
@@ -527,7 +542,7 @@ func TestVerif_C18(t *testing.T) {
 			t.Fatal(err)
 		}
 		if rp.Sub == "seq" {
-			why := c18SeqWord(rp.Scenario.Cap, rp.Scenario.File, rp.Word)
+			why := c18SeqWord(rp.Scenario.Cap, rp.Scenario.File, rp.Scenario.Base, rp.Word)
 			t.Logf("replay word %v -> %q", rp.Word, why)
 			if why != "" {
 				ev.Violate("C18|sequential|replay", why, rp)
@@ -558,6 +573,12 @@ func TestVerif_C18(t *testing.T) {
 		scs = append(scs, c18Scenarios(3*FileSizeAlign, true)[:3]...)
 	}
 	scs = append(scs, c18FaultScenarios(FileSizeAlign)...)
+	// the non-power-of-two ring started just below 2^32
+	for _, sc := range c18Scenarios(3*BuffSizeAlign, false)[:7] {
+		sc.Base = 1<<32 - 2
+		sc.Name += " [from 2^32-2]"
+		scs = append(scs, sc)
+	}
 	var idx int64
 	for _, sc := range scs {
 		sc := sc
@@ -611,7 +632,10 @@ func c18Seq() {
 		capn     int
 		file     bool
 		traceOff bool // errors.TraceEnabled = false: errors travel unwrapped
-	}{{BuffSizeAlign, false, false}, {3 * BuffSizeAlign, false, false}, {FileSizeAlign, true, false}, {3 * FileSizeAlign, true, false}, {BuffSizeAlign, false, true}} {
+		base     uint64
+	}{{BuffSizeAlign, false, false, 0}, {3 * BuffSizeAlign, false, false, 0}, {FileSizeAlign, true, false, 0}, {3 * FileSizeAlign, true, false, 0}, {BuffSizeAlign, false, true, 0},
+		// a ring that is not a power of two, started just below 2^32 (the words cross the boundary)
+		{3 * BuffSizeAlign, false, false, 1<<32 - BuffSizeAlign - 1}, {3 * FileSizeAlign, true, false, 1<<32 - 5}} {
 		if cfg.file && !ev.Thorough() {
 			continue
 		}
@@ -643,10 +667,10 @@ func c18Seq() {
 				return
 			}
 			if depth > 0 && (depth >= 2 || ev.Mine(0)) {
-				if why := c18SeqWord(cfg.capn, cfg.file, word); why != "" {
+				if why := c18SeqWord(cfg.capn, cfg.file, cfg.base, word); why != "" {
 					kind := strings.SplitN(strings.SplitN(why, ": ", 3)[1], ":", 2)[0]
-					ev.Violate("C18|sequential|"+kind, fmt.Sprintf("backlog of capacity %d (file=%v), operations %v: %s", real, cfg.file, word, why),
-						c18Replay{Sub: "seq", Scenario: c18Scenario{Cap: cfg.capn, File: cfg.file}, Word: append([]string{}, word...)})
+					ev.Violate("C18|sequential|"+kind, fmt.Sprintf("backlog of capacity %d (file=%v, started at absolute position %d), operations %v (offsets relative to the start): %s", real, cfg.file, cfg.base, word, why),
+						c18Replay{Sub: "seq", Scenario: c18Scenario{Cap: cfg.capn, File: cfg.file, Base: cfg.base}, Word: append([]string{}, word...)})
 				}
 				n++
 			}
@@ -699,7 +723,7 @@ func c18Seq() {
 		ev.Trans(n)
 		ev.StatesAdd(n)
 		ev.NontrivialAdd(n)
-		ev.Count(fmt.Sprintf("sequential_words_cap%d_file%v", real, cfg.file), n)
+		ev.Count(fmt.Sprintf("sequential_words_cap%d_file%v_base%d_traceoff%v", real, cfg.file, cfg.base, cfg.traceOff), n)
 	}
 	ev.Sample("sequential", []string{"W4095", "N", "W2", "A4097@1", "S1", "r1", "D"})
 }
